@@ -100,6 +100,11 @@ class Body:
         self.blocks = rec["blocks"]
         self.captures = rec.get("captures", [])
         self.is_closure = self.kind == "Closure"
+        # #[derive]-generated (std derives carry #[automatically_derived]; wincode/serde derives are macro expansions)
+        it = rec.get("impl_trait", "")
+        self.generated = bool(rec.get("derived")) or (
+            bool(rec.get("macro_generated")) and self.kind != "Closure" and
+            ("::_::" in rec["def"] or it.startswith(("wincode::", "serde::"))))
         self.root = strip_generics(rec["root"]) if "root" in rec else self.defpath
         self.n = len(self.blocks)
         self._succ = None
